@@ -1343,9 +1343,26 @@ func (e *Env) callExpr(t ECall) (Val, error) {
 		if !ok {
 			return Val{}, fmt.Errorf("chanlast: not a channel")
 		}
+		if ls := u.Layout(ct.Elem()); len(ls) == 1 {
+			return Val{T: ct.Elem(), S: []Term{Select(u.comp(e.st, "GF$chan$last1%"+string(ls[0].So), ArrSort(SInt, ls[0].So)), v.One())}}, nil
+		}
 		return Val{T: ct.Elem(), S: []Term{
 			Select(u.comp(e.st, "GF$chan$last%tag", ArrSort(SInt, SInt)), v.One()),
 			Select(u.comp(e.st, "GF$chan$last%val", ArrSort(SInt, SInt)), v.One())}}, nil
+	case "called": // called(Name#k): how many times that call site has been executed on this path
+		if len(t.Args) != 1 {
+			return Val{}, fmt.Errorf("called(Name#k): one argument")
+		}
+		tag := t.Args[0].String()
+		if g, ok := e.st.Ghost["calls."+tag]; ok {
+			return scalar(nil, g), nil
+		}
+		return Val{}, fmt.Errorf("called(%s): no such call site counter (tags are Name#k in source order)", tag)
+	case "spawned": // number of go statements executed on this path
+		if g, ok := e.st.Ghost["go.count"]; ok {
+			return scalar(nil, g), nil
+		}
+		return Val{}, fmt.Errorf("spawned(): counter not initialised")
 	case "now": // the ghost clock: the latest reading of time.Now()
 		return scalar(nil, u.ghost(e.st, "time.now", SInt)), nil
 	case "isfresh": // allocated after the pre-state
